@@ -75,6 +75,19 @@ fn check_text(s: &String, case: &mut Case) -> Result<(), Fail> {
             labels
         );
     }
+    // a name assembled from checked labels is the same name
+    if want && ps.len() <= 4 {
+        let labels: Result<Vec<Label>, _> = ps.iter().map(|p| Label::new(p.as_bytes())).collect();
+        let labels = labels.map_err(|e| Fail::new("c17:label-new", format!("Label::new on a piece of {:?}: {:?}", s, e)))?;
+        let from_slice = lib("Name::from(&[Label])", || oname(&Name::from(labels.as_slice())))?;
+        let direct = lib("Name::new", || Name::new(s).map(|n| oname(&n)))?;
+        ensure!(Ok(from_slice.clone()) == direct.map_err(|_| ()), "c17:from-labels", "Name::from(labels of {:?}) = {:?}", s, from_slice);
+        if ps.len() == 2 {
+            let arr: [Label; 2] = [labels[0].clone(), labels[1].clone()];
+            let from_arr = lib("Name::from([Label; N])", || oname(&Name::from(arr)))?;
+            ensure!(from_arr == from_slice, "c17:from-labels", "Name::from([Label; 2]) of {:?} = {:?}", s, from_arr);
+        }
+    }
     // single label constructor obeys the same label rule (no dot splitting there)
     if !s.contains('.') {
         let l = lib("Label::new", || Label::new(s.as_bytes()))?;
